@@ -462,6 +462,42 @@ func r7init(c *core.Ctx) {
 		}
 	}
 	allowed := map[string]bool{"InitSnow3g": true, "clockFsm": true, "lfsrInitialisationMode": true, "lfsrKeystreamMode": true}
+	// an unexported helper that only the init/clock functions call is part of them
+	callers := map[string]map[string]bool{}
+	for _, pp := range c.P.RepoPackages() {
+		for _, f := range allFuncsOf(c.P.SSAPkg(pp.PkgPath)) {
+			for _, ci := range core.Calls(f) {
+				if cal := ci.Common().StaticCallee(); cal != nil && fnPkgPath(cal) == pSnow {
+					if callers[cal.Name()] == nil {
+						callers[cal.Name()] = map[string]bool{}
+					}
+					who := f.Name()
+					if fnPkgPath(f) != pSnow {
+						who = core.FuncName(f)
+					}
+					callers[cal.Name()][who] = true
+				}
+			}
+		}
+	}
+	for changed := true; changed; {
+		changed = false
+		for w := range writers {
+			if allowed[w] || len(callers[w]) == 0 || token.IsExported(w) {
+				continue
+			}
+			all := true
+			for cl := range callers[w] {
+				if !allowed[cl] {
+					all = false
+				}
+			}
+			if all {
+				allowed[w] = true
+				changed = true
+			}
+		}
+	}
 	okW := true
 	for w := range writers {
 		if !allowed[w] {
@@ -723,6 +759,24 @@ func r7nea1apply(c *core.Ctx, R string, fn *ssa.Function) {
 	var bLimit ssa.Value
 	for _, a := range apps {
 		if !a.recognised {
+			// input octet xor something read back from a local buffer: the keystream octet is staged in a
+			// form this rule cannot follow (not a wrong construct)
+			if x, isX := a.st.Val.(*ssa.BinOp); isX && x.Op == token.XOR {
+				staged := false
+				for _, pair := range [][2]ssa.Value{{x.X, x.Y}, {x.Y, x.X}} {
+					ld, isLd := pair[0].(*ssa.UnOp)
+					if !isLd || ld.Op != token.MUL || !strings.HasPrefix(p.Path(ld.X), "p4[") {
+						continue
+					}
+					if o, isO := stripConv(pair[1]).(*ssa.UnOp); isO && o.Op == token.MUL && strings.HasPrefix(p.Path(o.X), "local:") {
+						staged = true
+					}
+				}
+				if staged {
+					c.SoftUndecided("NEA1: the keystream octet xored onto %s is staged in a local buffer (%s); the application is not decided", clip(p.Path(a.e)), clip(p.Path(a.st.Val)))
+					return
+				}
+			}
 			bad = "an output octet is not input octet xor keystream octet: " + clip(p.Path(a.st.Val))
 			continue
 		}
